@@ -52,6 +52,8 @@ impl PathBasedScc {
     pub fn run<T>(&mut self, graph: &(impl Graph<T> + 'static)) -> Vec<usize> {
         // initialization
         self.bounds = Vec::new();
+        // forget the labels of an earlier run
+        self.scc.clear();
         self.scc.resize(graph.number_of_nodes(), usize::MAX);
         self.stack = Vec::new();
         self.component = graph.number_of_nodes();
